@@ -53,7 +53,7 @@ theorem step_marker (n : Nat) (h : Hctx) (c : WrapCount) (r : Bytes)
   simp only [tags_ne, beq_self_eq_true, if_true, if_false, Bool.false_eq_true]
 
 theorem step_body (n : Nat) (h : Hctx) (c : WrapCount) (hb : reqBodyOK h.request = true) :
-    parseWrappers (n + 1) h c = .ok ({ h with reqTag := firstWord h.request }, c) := by
+    parseWrappers (n + 1) h c = some (.ok ({ h with reqTag := firstWord h.request }, c)) := by
   unfold reqBodyOK at hb
   rw [parseWrappers]
   unfold firstWord
@@ -172,7 +172,7 @@ theorem rstep_extra (n : Nat) (ex e : ResExtra) (r : Bytes) (k : Nat) (hw : e.wf
 
 theorem rstep_end (n : Nat) (ex : ResExtra) (body after : Bytes) (tag : UInt32) (k : Nat)
     (hu : u32R body = .ok (tag, after)) (ht : (tag != tReqResultHeader) = true) :
-    parseResultExtras (n + 1) ex body k = .ok (body, ex, tag, after, k) := by
+    parseResultExtras (n + 1) ex body k = some (.ok (body, ex, tag, after, k)) := by
   rw [parseResultExtras, hu]
   simp only [ht, if_true]
 
@@ -183,7 +183,7 @@ theorem ResExtra.norm_flags_zero (e : ResExtra) (h : e.flags = 0) : e.norm = {} 
 theorem parse_extras_part (ex : ResExtra) (tail after : Bytes) (tag : UInt32) (hw : ex.wf)
     (hu : u32R tail = .ok (tag, after)) (ht : (tag != tReqResultHeader) = true) :
     ∃ k, k ≤ 1 ∧ parseResultExtras ((extrasOnWire ex ++ tail).length / 4 + 1) {} (extrasOnWire ex ++ tail) 0
-      = .ok (tail, ex.norm, tag, after, k) := by
+      = some (.ok (tail, ex.norm, tag, after, k)) := by
   have hl : 4 ≤ tail.length := by
     by_cases h : tail.length < 4
     · rw [u32R_short tail h] at hu; cases hu
@@ -477,5 +477,40 @@ theorem response_desc_ok (h : RespIn) (err : HandlerErr) (code : UInt32) (desc :
       exact strOK_of_short _ (by omega)
     · cases hp
   · simp [hn] at hp
+
+/-! ### proxy hop -/
+
+theorem hasBit_norm_tc (t : TraceContext) : t.norm.norm = t.norm := by
+  cases t; simp only [TraceContext.norm]
+  congr 1 <;> split <;> simp_all
+
+theorem ReqExtra.norm_norm (e : ReqExtra) : e.norm.norm = e.norm := by
+  cases e
+  simp only [ReqExtra.norm]
+  congr 1 <;> split <;> simp_all [hasBit_norm_tc]
+
+theorem ReqExtra.norm_mapsOK (e : ReqExtra) (h : e.mapsOK) : e.norm.mapsOK := by
+  intro hb
+  have hb' : hasBit e.flags 15 = true := hb
+  simp only [ReqExtra.norm, hb', if_true]
+  exact h hb'
+
+/-- A request relayed by `ForwardAndFlush` reaches the final server with the client's query id, body and
+extras, but **without the actor id and without the TL2 marker**: `Request{Body, Extra, queryID}` in `forward.go`
+copies neither `ActorID` nor `BodyFormatTL2`. -/
+theorem forward_keeps_extras_drops_actor_and_format (req : Request) (p : Bytes × Nat) (p2 : Bytes × Nat)
+    (hb : reqBodyOK req.body = true) (hm : req.extra.mapsOK) (hp : preparePacket req = some p)
+    (hf : forwardRequest (expectedHctx req) = some p2) :
+    viaProxy (wireOf p) = .ok (some (.ok (expectedHctx { req with actorId := 0, tl2 := false }))) := by
+  unfold viaProxy
+  rw [parse_prepare req p hb (prepare_wf req p hm hp) hp]
+  simp only [hf]
+  unfold forwardRequest at hf
+  let req2 : Request := { body := (expectedHctx req).request, extra := (expectedHctx req).extra, queryId := (expectedHctx req).queryId }
+  have hb2 : reqBodyOK req2.body = true := hb
+  have hm2 : req2.extra.mapsOK := ReqExtra.norm_mapsOK _ hm
+  have hf2 : preparePacket req2 = some p2 := hf
+  rw [parse_prepare req2 p2 hb2 (prepare_wf req2 p2 hm2 hf2) hf2]
+  simp only [req2, expectedHctx, fillInternals, ReqExtra.norm_norm]
 
 end TLVerif.Rpcextra
